@@ -167,8 +167,11 @@ class Interp:
 
     # ---- statements -----------------------------------------------------------
     def clone_state(self, st):
-        return dict(env=dict(st["env"]), selfattrs=dict(st["selfattrs"]), assigned=set(st["assigned"]),
-                    pc=list(st["pc"]), depth=st["depth"], where=st["where"], line0=st["line0"])
+        d = dict(env=dict(st["env"]), selfattrs=dict(st["selfattrs"]), assigned=set(st["assigned"]),
+                 pc=list(st["pc"]), depth=st["depth"], where=st["where"], line0=st["line0"])
+        if "func_module" in st:
+            d["func_module"] = st["func_module"]
+        return d
 
     def event(self, kind, what, node, st):
         ev = Event(kind, what, st["line0"] + getattr(node, "lineno", 1) - 1, list(st["pc"]), st["where"])
@@ -181,8 +184,26 @@ class Interp:
             raise PathEnd()
         if isinstance(s, ast.Raise):
             raise PathEnd()
+        if isinstance(s, ast.FunctionDef):
+            # a closure defined inside the method (e.g. the integrand handed to _conditional_expect): its body runs
+            # with the enclosing environment; interpret it once for its events
+            if st["depth"] < self.max_depth:
+                sub = self.clone_state(st)
+                sub["depth"] = st["depth"] + 1
+                for a in s.args.args:
+                    sub["env"][a.arg] = FRESH
+                work2 = [([list(s.body)], sub)]
+                n = 0
+                while work2 and n < 32:
+                    stack2, s2 = work2.pop()
+                    n += 1
+                    try:
+                        self.run_stack(stack2, s2, work2)
+                    except PathEnd:
+                        pass
+            return
         if isinstance(s, (ast.Pass, ast.Import, ast.ImportFrom, ast.Global, ast.Nonlocal, ast.Assert, ast.Delete,
-                          ast.FunctionDef, ast.ClassDef, ast.Break, ast.Continue)):
+                          ast.ClassDef, ast.Break, ast.Continue)):
             return
         if isinstance(s, ast.Expr):
             self.eval(s.value, st)
@@ -402,6 +423,10 @@ class Interp:
             self.event("alias_mutation", f"out= {self.describe(kwargs['out'])}", e, st)
         if fname in ALIAS_CALLS:
             return AV(allrefs)
+        if isinstance(f, ast.Name) and any(self.tainted(a) for a in list(args) + list(kwargs.values())):
+            r = self.inline_function(fname, e, args, kwargs, st)
+            if r is not None:
+                return r
         return FRESH
 
     def inline(self, name, e, args, kwargs, st, is_super):
@@ -463,6 +488,65 @@ class Interp:
                 for k, v in s2["selfattrs"].items():
                     st["selfattrs"][k] = v.join(st["selfattrs"][k]) if k in st["selfattrs"] else v
         r = AV(allrefs)
+        for x in rets:
+            r = AV(r.refs | x.refs)
+        return r
+
+    def inline_function(self, name, e, args, kwargs, st):
+        """a module-level function of skactiveml called with a value that may alias a parameter / argument:
+        interpret its body (bounded depth) so that mutations inside the callee are seen"""
+        if st["depth"] >= self.max_depth:
+            return None
+        owner_name = st["where"].split(".")[0]
+        fobj = None
+        for k in inspect.getmro(self.cls):
+            mod = inspect.getmodule(k)
+            if mod is not None and hasattr(mod, name):
+                cand = getattr(mod, name)
+                if inspect.isfunction(cand) and (getattr(cand, "__module__", "") or "").startswith("skactiveml"):
+                    fobj = cand
+                    break
+        if fobj is None and "func_module" in st:
+            mod = st["func_module"]
+            cand = getattr(mod, name, None)
+            if inspect.isfunction(cand) and (getattr(cand, "__module__", "") or "").startswith("skactiveml"):
+                fobj = cand
+        if fobj is None:
+            return None
+        try:
+            fobj = inspect.unwrap(fobj)
+            src = textwrap.dedent(inspect.getsource(fobj))
+            fn = ast.parse(src).body[0]
+            file, line0 = inspect.getsourcefile(fobj), inspect.getsourcelines(fobj)[1]
+        except (OSError, TypeError, SyntaxError, IndexError):
+            return None
+        if not isinstance(fn, ast.FunctionDef):
+            return None
+        tag = (f"{fobj.__module__}:{fobj.__qualname__}", file, line0)
+        if tag not in self.functions:
+            self.functions.append(tag)
+        env = {}
+        params = [a.arg for a in fn.args.args]
+        for p, a in zip(params, args):
+            env[p] = a
+        for k, v in kwargs.items():
+            if k is not None:
+                env[k] = v
+        sub = dict(env=env, selfattrs={}, assigned=set(), pc=list(st["pc"]), depth=st["depth"] + 1,
+                   where=f"{fobj.__qualname__}", line0=line0, func_module=inspect.getmodule(fobj))
+        rets = []
+        work = [([list(fn.body)], sub)]
+        n = 0
+        while work and n < 64:
+            stack, s2 = work.pop()
+            n += 1
+            try:
+                self.run_stack(stack, s2, work)
+            except PathEnd:
+                pass
+            if "ret" in s2:
+                rets.append(s2["ret"])
+        r = FRESH
         for x in rets:
             r = AV(r.refs | x.refs)
         return r
